@@ -86,7 +86,10 @@ func c05RealProtect(s LongHeaderSealer, hdr, payload []byte, pn protocol.PacketN
 }
 
 func c05VectorCase(i int) explore.CaseResult {
-	if i == 0 { // RFC 5869 A.1, reference only
+	if i == 0 { // the reference's own self-test, then RFC 5869 A.1 (reference only)
+		if err := ref5.SelfTest(); err != nil {
+			explore.Must(false, "%v", err)
+		}
 		ikm := bytes.Repeat([]byte{0x0b}, 22)
 		prk := ref5.HKDFExtract(sha256.New, ikm, c05Hex("000102030405060708090a0b0c"))
 		explore.Must(hex.EncodeToString(prk) == "077709362c2e32df0ddc3f0dc47bba6390b6c73bb50f9c3122ec844ad7c2b3e5", "ref5 HKDF-Extract fails RFC 5869 A.1")
